@@ -37,12 +37,13 @@ def obligations(chk, prop):
                            'resolver answering differently per (rule, scenario); both iteration orders of hash maps'))
     o.verdict = 'holds'
     K = {n: 3 + 7 * i for i, (n, _r) in enumerate(SCENS)}
+    K['b'] = 0          # a resolved budget of ZERO is still a budget: the scenario's events carry Retries { current: 0, left: 0 }
     SERIAL = ('b', 'd')         # what the (custom) classifier says: it may look at anything, e.g. the expanded name
     o2 = chk.add(Obligation('%s.insert.every-scenario-filed-under-the-type-the-classifier-gives-for-it' % prop, o.bound if hasattr(o, 'bound') else 'same runs'))
     o2.verdict = 'holds'
     # rows expanded from one outline keep the outline's Examples: all scenarios share one non-empty `examples` value
     shared_examples = Obj('vec', items=(Lazy('gherkin::Examples', 'the.outline.examples'),), ty='Vec<gherkin::Examples>')
-    for ntag, outline in ((0, False), (1, False), (0, True)):
+    for ntag, outline in ((0, False), (1, False), (0, True), (0, 'empty-rule-first')):
         ex, M = chk.new_exec(loop_bound=16, max_paths=4000)
         M.opaque_bodies |= {'ScenarioId::new'}
         captured = {}
@@ -89,9 +90,12 @@ def obligations(chk, prop):
             def scv(n):
                 return tagsets.gherkin_node(prog, 'gherkin::Scenario', n, ['%s.tag%d' % (n, i) for i in range(ntag)], {
                     'steps': Obj('vec', items=(), ty='Vec<Step>'),
-                    'examples': shared_examples if outline else Obj('vec', items=(), ty='Vec<gherkin::Examples>')})
+                    'examples': shared_examples if outline is True else Obj('vec', items=(), ty='Vec<gherkin::Examples>')})
             rules = [tagsets.gherkin_node(prog, 'gherkin::Rule', 'rule%d' % ri, [], {
                 'scenarios': Obj('vec', items=tuple(scv(n) for n, r in SCENS if r == ri), ty='Vec<Scenario>')}) for ri in (0, 1)]
+            if outline == 'empty-rule-first':
+                # a rule whose scenarios were all filtered out stays in the feature (Cucumber::filter_run keeps it), in front
+                rules = [tagsets.gherkin_node(prog, 'gherkin::Rule', 'ruleE', [], {'scenarios': Obj('vec', items=(), ty='Vec<Scenario>')})] + rules
             feat = tagsets.gherkin_node(prog, 'gherkin::Feature', 'feat', [], {
                 'scenarios': Obj('vec', items=tuple(scv(n) for n, r in SCENS if r is None), ty='Vec<Scenario>'), 'rules': Obj('vec', items=tuple(rules), ty='Vec<Rule>')})
             args = [None] * len(ins.params)
@@ -131,7 +135,7 @@ def obligations(chk, prop):
             if wrong and o2.verdict != 'violated':
                 o2.verdict = 'violated'
                 o2.detail = 'scenarios filed under another type than the classifier gives for them: %s (%d tag(s) per scenario; %s)' % (
-                    ', '.join(wrong), ntag, 'all scenarios are rows of one outline (same non-empty Examples)' if outline else 'plain scenarios')
+                    ', '.join(wrong), ntag, 'all scenarios are rows of one outline (same non-empty Examples)' if outline is True else 'an empty rule in front of the others' if outline else 'plain scenarios')
                 o2.model = {'wrong': wrong, 'outline': outline}
             for _k, vec in m.entries:
                 for ent in M.seq_of(ex_, vec):
@@ -162,7 +166,8 @@ def obligations(chk, prop):
                         t_ = z3.Bool('%s==%s' % tuple(sorted(('%s.tag0' % x, '%s.tag0' % y))))
                         if not ex_.check(z3.Not(t_)):
                             eqs['%s.tag0==%s.tag0' % (x, y)] = True
-                o.detail = '%s (%d tag(s) per scenario%s; resolver calls %s)' % (bad, ntag, ', equal: %s' % sorted(eqs) if eqs else '', res['calls'])
+                o.detail = '%s (%d tag(s) per scenario%s%s; resolver calls %s)' % (bad, ntag, ', equal: %s' % sorted(eqs) if eqs else '',
+                                                                                 '; an empty rule in front of the others' if outline == 'empty-rule-first' else '', res['calls'])
                 o.model = {'tags_per_scenario': ntag, 'equal_tags': sorted(eqs), 'resolver_calls': [list(map(str, c)) for c in res['calls']]}
         ex.explore(run, on_end)
     if o.verdict == 'violated':
@@ -193,8 +198,32 @@ def confirm(chk, o, prop):
         o.verdict = 'inconclusive'
         o.detail += ' | native replay failed: %s' % out[-200:]
     elif starts == {'a': 1, 'c': 3, 'd': 1}:
-        o.verdict = 'inconclusive'
-        o.detail += ' | not reproduced natively (attempts a=1, c=3, d=1 as the tags say)'
+        # a budget of zero is a budget: the events of a `@retry(0)` scenario carry Retries { current: 0, left: 0 }
+        lines2 = ['mode runner', 'hooks none', 'builder max_concurrent=1', 'feature', '| Feature: f', '|   @retry(0)', '|   Scenario: z', '|     Given sz', 'step sz always_fail']
+        path2 = os.path.join(d, '%s-insert-retry-options-budget-zero.script' % prop)
+        r2, out2 = replay.run_script('\n'.join(lines2) + '\n', path2, timeout=60)
+        chk.replays += 1
+        rs = re.findall(r'LOG EV \S*scenario\[z\]:started r=(\S+)', out2)
+        # an empty rule (its scenarios filtered out) in front of the others
+        lines3 = ['mode runner', 'hooks none', 'builder max_concurrent=1', 'prepend_empty_rule', 'feature', '| Feature: f', '|   Scenario: a', '|     Given sa',
+                  '|   @retry(2)', '|   Rule: r0', '|     Scenario: c', '|       Given sc', '|   Rule: r1', '|     Scenario: d', '|       Given sd',
+                  'step sa always_fail', 'step sc always_fail', 'step sd always_fail']
+        path3 = os.path.join(d, '%s-insert-retry-options-empty-rule-first.script' % prop)
+        r3, out3 = replay.run_script('\n'.join(lines3) + '\n', path3, timeout=60)
+        chk.replays += 1
+        starts3 = {n: len(re.findall(r'LOG EV \S*scenario\[%s\]:started' % n, out3)) for n in ('a', 'c', 'd')}
+        if r3 is not None and sum(starts3.values()) and starts3 != {'a': 1, 'c': 3, 'd': 1}:
+            chk.replay_files.append(path3)
+            o.replay = path3
+            o.detail += ' | reproduced natively through the real runner: with an empty rule in front, failing scenarios a (top level), c (rule tagged @retry(2)), d (next rule) were attempted %s times, the tags say a=1, c=3, d=1' % starts3
+            return
+        if r2 is not None and rs and rs != ['0/0']:
+            chk.replay_files.append(path2)
+            o.replay = path2
+            o.detail += ' | reproduced natively through the real runner: the events of a scenario tagged @retry(0) carry retries %s (expected one attempt with 0/0)' % rs
+        else:
+            o.verdict = 'inconclusive'
+            o.detail += ' | not reproduced natively (attempts a=1, c=3, d=1 as the tags say; a @retry(0) scenario carries 0/0)'
     else:
         chk.replay_files.append(path)
         o.replay = path
